@@ -2,6 +2,7 @@
 From Coq Require Import ZArith List Bool Arith Lia.
 From TV Require Import Common.Harness C15.Model C15.Law.
 Import ListNotations.
+Open Scope nat_scope.
 
 Scheme D_elem_min := Minimality for D_elem Sort Prop
   with D_ser_min := Minimality for D_ser Sort Prop
@@ -197,7 +198,7 @@ Proof.
   - intros b' Hb f _ rest. rewrite (Hb eq_refl). reflexivity.
   - (* brackets *)
     intros b ts t _ IH b' Hb f Hf rest.
-    rewrite app_length in Hf. cbn [length] in Hf.
+    cbn [length] in Hf. rewrite app_length in Hf. cbn [length] in Hf.
     destruct f as [|f]; [lia|]. cbn [app p_elem]. rewrite <- app_assoc. cbn [app].
     cbn [p_par].
     assert (exists kp, f = S kp + (2 * length ts + 1)) as (kp & Ef) by (exists (f - (2 * length ts + 1) - 1); lia).
@@ -244,7 +245,7 @@ Proof.
   replace (2 * length ts + 3) with (S (2 * length ts + 2)) by lia. cbn [p_par].
   assert (p_par_body doc (p_par doc (2 * length ts + 2)) true (2 * length ts + 2) (1 + (2 * length ts + 1)) (ts ++ [])
           = Some (t, [])) as Hcall.
-  { apply (proj2 (proj2 complete_mut) _ _ _ HD true (le_flag_refl _) _ ltac:(lia) _ ltac:(lia) 1 [] (t, []) I).
+  { apply (proj2 (proj2 complete_mut) _ _ _ HD true (le_flag_refl _) (2 * length ts + 2) ltac:(lia) (2 * length ts + 2) ltac:(lia) 1 [] (t, []) I).
     apply par_loop_stop. exact I. }
   rewrite app_nil_r in Hcall. replace (1 + (2 * length ts + 1)) with (2 * length ts + 2) in Hcall by lia.
   rewrite Hcall. reflexivity.
@@ -261,3 +262,139 @@ Proof.
 Qed.
 
 End Grammar.
+
+(* ================================================================== Part 2: the two grammars *)
+Lemma lark_subset_doc_mut :
+  (forall b ts t, D_elem false b ts t -> D_elem true b ts t) /\
+  (forall b ts t, D_ser false b ts t -> D_ser true b ts t) /\
+  (forall b ts t, D_par false b ts t -> D_par true b ts t).
+Proof.
+  apply D_mutind; intros.
+  - now apply De_items.
+  - now apply De_trait.
+  - apply De_meta.
+  - apply De_any.
+  - apply De_br. rewrite andb_false_r in H0.
+    eapply (proj2 (proj2 (promote_mut true))); [exact H0|apply le_flag_false].
+  - apply Ds_one; auto.
+  - apply Ds_cons; auto.
+  - apply Dp_one; auto.
+  - apply Dp_cons; auto.
+Qed.
+
+Lemma lark_subset_doc ts t : D_start ts t -> Doc_start ts t.
+Proof. apply lark_subset_doc_mut. Qed.
+
+(* tokens of "[a.*, b.c]" *)
+Definition f10_tokens : list tok :=
+  [LBR; W [97%Z]; TC CDot; STAR; COMMA; W [98%Z]; TC CDot; W [99%Z]; RBR].
+Definition f10_text : list chr :=
+  [CLbr; CStart 97; CDotC; CStar; CCommaC; CWs; CStart 98; CDotC; CStart 99; CRbr].
+
+Lemma f10_refuted :
+  exists t, Doc_start f10_tokens t /\ parse_toks f10_tokens = None /\
+            lex f10_text = Some f10_tokens /\ compile_str f10_text = Rejected.
+Proof.
+  exists (TPar (TSeries (TTrait [97%Z]) CDot TAny) (TSeries (TTrait [98%Z]) CDot (TTrait [99%Z]))).
+  split; [|repeat split; vm_compute; reflexivity].
+  apply parse_toks_gen_sound. vm_compute. reflexivity.
+Qed.
+
+(* ================================================================== Part 3: "*" only in terminal position *)
+Open Scope Z_scope.
+Definition bump (t : tok) : Z := match t with LBR => 1 | RBR => -1 | _ => 0 end.
+Fixpoint depth (ts : list tok) : Z := match ts with [] => 0 | t :: r => bump t + depth r end.
+
+Definition next_ok (r : list tok) : bool := match r with [] | COMMA :: _ => true | _ => false end.
+Definition is_star (t : tok) : bool := match t with STAR => true | _ => false end.
+
+(* every "*" token stands at bracket depth 0 and is followed by "," or by the end of the text *)
+Fixpoint star_ok (d : Z) (ts : list tok) : bool :=
+  match ts with
+  | [] => true
+  | t :: r => (if is_star t then (d =? 0) && next_ok r else true) && star_ok (d + bump t) r
+  end.
+
+Lemma depth_app a b : depth (a ++ b) = depth a + depth b.
+Proof. induction a; cbn [app depth]; lia. Qed.
+
+Definition no_star (ts : list tok) : Prop := forall t, In t ts -> is_star t = false.
+
+Lemma no_star_app a b : no_star a -> no_star b -> no_star (a ++ b).
+Proof. intros Ha Hb t Ht. apply in_app_or in Ht. destruct Ht; auto. Qed.
+Lemma no_star_cons t r : is_star t = false -> no_star r -> no_star (t :: r).
+Proof. intros Ht Hr x [<-|Hx]; auto. Qed.
+Lemma no_star_nil : no_star [].
+Proof. intros t []. Qed.
+
+Lemma star_ok_no_star ts : no_star ts -> forall d, star_ok d ts = true.
+Proof.
+  induction ts as [|t r IH]; intros H d; [reflexivity|]. cbn [star_ok].
+  rewrite (H t (or_introl eq_refl)). rewrite IH; [reflexivity|]. intros x Hx. apply H. now right.
+Qed.
+
+Lemma star_ok_app_nostar a b d : no_star a -> star_ok d (a ++ b) = star_ok (d + depth a) b.
+Proof.
+  revert d. induction a as [|t r IH]; intros d H; cbn [app depth star_ok].
+  - f_equal. lia.
+  - rewrite (H t (or_introl eq_refl)). cbn [andb]. rewrite IH.
+    + f_equal. lia.
+    + intros x Hx. apply H. now right.
+Qed.
+
+Lemma star_ok_app_comma a b d :
+  star_ok d (a ++ COMMA :: b) = star_ok d a && star_ok (d + depth a) b.
+Proof.
+  revert d. induction a as [|t r IH]; intros d; cbn [app depth star_ok].
+  - cbn. f_equal; lia.
+  - rewrite IH. replace (d + (bump t + depth r)) with (d + bump t + depth r) by lia.
+    destruct (is_star t); [|cbn [andb]; reflexivity].
+    assert (next_ok (r ++ COMMA :: b) = next_ok r) as ->.
+    { destruct r as [|x r']; [reflexivity|]. destruct x; reflexivity. }
+    rewrite andb_assoc. reflexivity.
+Qed.
+
+Lemma star_terminal_mut :
+  (forall b ts t, D_elem false b ts t -> depth ts = 0 /\ (b = false -> no_star ts) /\ star_ok 0 ts = true) /\
+  (forall b ts t, D_ser false b ts t -> depth ts = 0 /\ (b = false -> no_star ts) /\ star_ok 0 ts = true) /\
+  (forall b ts t, D_par false b ts t -> depth ts = 0 /\ (b = false -> no_star ts) /\ star_ok 0 ts = true).
+Proof.
+  apply D_mutind.
+  - intros b w _. repeat split. intros _. apply no_star_cons; [reflexivity|apply no_star_nil].
+  - intros b w _. repeat split. intros _. apply no_star_cons; [reflexivity|apply no_star_nil].
+  - intros b w. repeat split. intros _. repeat (apply no_star_cons; [reflexivity|]). apply no_star_nil.
+  - repeat split. discriminate.
+  - intros b ts t _ (Hd & Hn & _). rewrite andb_false_r in Hn. specialize (Hn eq_refl).
+    assert (no_star (LBR :: ts ++ [RBR])) as Hns.
+    { apply no_star_cons; [reflexivity|]. apply no_star_app; [exact Hn|].
+      apply no_star_cons; [reflexivity|apply no_star_nil]. }
+    split; [|split].
+    + cbn [depth]. rewrite depth_app. cbn. lia.
+    + intros _. exact Hns.
+    + now apply star_ok_no_star.
+  - intros b ts t _ H. exact H.
+  - intros b ts1 t1 c ts2 t2 _ (Hd1 & Hn1 & _) _ (Hd2 & Hn2 & Hs2). specialize (Hn1 eq_refl).
+    split; [|split].
+    + rewrite depth_app. cbn [depth bump]. lia.
+    + intros Hb. apply no_star_app; [exact Hn1|]. apply no_star_cons; [reflexivity|auto].
+    + rewrite star_ok_app_nostar by exact Hn1. rewrite Hd1. cbn [star_ok is_star bump]. cbn [andb].
+      replace (0 + 0 + 0) with 0 by lia. exact Hs2.
+  - intros b ts t _ H. exact H.
+  - intros b ts1 t1 ts2 t2 _ (Hd1 & Hn1 & Hs1) _ (Hd2 & Hn2 & Hs2).
+    split; [|split].
+    + rewrite depth_app. cbn [depth bump]. lia.
+    + intros Hb. apply no_star_app; [auto|]. apply no_star_cons; [reflexivity|auto].
+    + rewrite star_ok_app_comma, Hs1, Hd1. cbn [andb]. exact Hs2.
+Qed.
+
+Lemma star_only_terminal_lemma ts t : D_start ts t -> star_ok 0 ts = true.
+Proof. intros H. apply (proj2 (proj2 star_terminal_mut) _ _ _ H). Qed.
+
+Lemma star_elsewhere_rejected s ts :
+  lex s = Some ts -> star_ok 0 ts = false -> compile_str s = Rejected.
+Proof.
+  intros Hl Hs. unfold compile_str, parse. rewrite Hl.
+  destruct (parse_toks ts) as [t|] eqn:E; [|reflexivity].
+  apply parse_toks_gen_sound in E. apply star_only_terminal_lemma in E. congruence.
+Qed.
+Close Scope Z_scope.
